@@ -211,3 +211,10 @@ M.contract('xtuml.meta.MetaClass.delete@keep-links', [('self', MC), ('instance',
            ensures={'removed-from-the-pool-order-of-the-rest-kept': 'self.storage == seq_remove(old(self.storage), instance)'},
            raises=[Raises('DeleteException', when='instance not in self.storage')],
            modifies=['self.storage'])
+M.contract('xtuml.meta.delete@keep-links', [('instance', INST), ('disconnect', BOOL, 'True')], returns=NONE,
+           requires={'links-are-kept': 'disconnect == False', 'metaclass': 'implies(instance is not None, instance.__metaclass__ is not None)'},
+           ensures={'removed-from-the-pool-of-its-class-order-of-the-rest-kept':
+                    'instance.__metaclass__.storage == seq_remove(old(instance.__metaclass__.storage), instance)',
+                    'pools-of-other-classes-untouched': 'all(implies(mc is not instance.__metaclass__, mc.storage == old(mc.storage)) for mc in anyref("MetaClass"))'},
+           raises=[Raises('DeleteException', when='instance is None or instance not in instance.__metaclass__.storage')],
+           modifies=['MetaClass.storage'])
